@@ -6,7 +6,7 @@
   `w` = identifier width (any; the code's is the generated `Gen.idWidth`), `me` = the own identifier (any bit list),
   `ops` = ANY finite history of `Op.add n` (insertion or update, with arbitrary identifier of width `w`, status, rtt,
   address), `Op.removeBad`, `Op.setNode id failed recent rtt` (the environment changing the failure count / rtt of a stored
-  node).  `run m (RT.init me) ops` is the table after the history.  No bound on the number of nodes or steps.
+  node).  `run (RT.init me m) ops` is the table after the history.  No bound on the number of nodes or steps.
 -/
 import Ipv8.C14.Closest
 
@@ -20,7 +20,7 @@ def ValidHistory (w : Nat) (ops : List Op) : Prop := ∀ op ∈ ops, op.valid w
 
 /-- Buckets partition the identifier space, part 1 (prefix-free): no bucket key is a proper prefix of another. -/
 theorem partition_prefix_free (hm : 1 ≤ m) (me : Bits) (ops : List Op) (hv : ValidHistory w ops)
-    (k k' : Bits) (hk : k ∈ (run m (RT.init me) ops).trie.keys) (hk' : k' ∈ (run m (RT.init me) ops).trie.keys)
+    (k k' : Bits) (hk : k ∈ (run (RT.init me m) ops).trie.keys) (hk' : k' ∈ (run (RT.init me m) ops).trie.keys)
     (hp : k <+: k') : k = k' := by
   have hwf := (run_inv hm me ops hv).1
   obtain ⟨b, hb⟩ := hwf.keys_leaf hk
@@ -31,8 +31,8 @@ theorem partition_prefix_free (hm : 1 ≤ m) (me : Bits) (ops : List Op) (hv : V
     and that is the bucket `get_bucket` returns. -/
 theorem partition_complete (hm : 1 ≤ m) (me : Bits) (ops : List Op) (hv : ValidHistory w ops)
     (id : Bits) (hid : id.length = w) :
-    ∃ k b, (run m (RT.init me) ops).getBucket id = some (k, b) ∧ k ∈ (run m (RT.init me) ops).trie.keys ∧ k <+: id ∧
-      (run m (RT.init me) ops).trie.get k = some b ∧ b.pfx = k := by
+    ∃ k b, (run (RT.init me m) ops).getBucket id = some (k, b) ∧ k ∈ (run (RT.init me m) ops).trie.keys ∧ k <+: id ∧
+      (run (RT.init me m) ops).trie.get k = some b ∧ b.pfx = k := by
   have hwf := (run_inv hm me ops hv).1
   obtain ⟨p, b, hg, hp, hf⟩ := hwf.getBucket (s := id) (by simpa using hid)
   have hb : BucketOK m w p b := by simpa using hwf.find_leaf hf
@@ -41,8 +41,8 @@ theorem partition_complete (hm : 1 ≤ m) (me : Bits) (ops : List Op) (hv : Vali
 /-- Every node sits in the bucket that owns its identifier: a node stored under key `k` has `k` as a prefix of its
     identifier, has width `w`, and `get_bucket(node.id)` returns exactly that bucket. -/
 theorem node_in_owner (hm : 1 ≤ m) (me : Bits) (ops : List Op) (hv : ValidHistory w ops)
-    (k : Bits) (b : Bucket) (hb : (run m (RT.init me) ops).trie.get k = some b) (n : Node) (hn : n ∈ b.nodes) :
-    k <+: n.id ∧ n.id.length = w ∧ b.owns n.id = true ∧ (run m (RT.init me) ops).getBucket n.id = some (k, b) := by
+    (k : Bits) (b : Bucket) (hb : (run (RT.init me m) ops).trie.get k = some b) (n : Node) (hn : n ∈ b.nodes) :
+    k <+: n.id ∧ n.id.length = w ∧ b.owns n.id = true ∧ (run (RT.init me m) ops).getBucket n.id = some (k, b) := by
   have hwf := (run_inv hm me ops hv).1
   have hf := hwf.get_leaf hb
   have hok : BucketOK m w k b := by simpa using hwf.find_leaf hf
@@ -58,7 +58,7 @@ theorem node_in_owner (hm : 1 ≤ m) (me : Bits) (ops : List Op) (hv : ValidHist
 
 /-- No bucket exceeds its capacity, and no identifier is stored twice in a bucket. -/
 theorem capacity (hm : 1 ≤ m) (me : Bits) (ops : List Op) (hv : ValidHistory w ops)
-    (k : Bits) (b : Bucket) (hb : (run m (RT.init me) ops).trie.get k = some b) :
+    (k : Bits) (b : Bucket) (hb : (run (RT.init me m) ops).trie.get k = some b) :
     b.nodes.length ≤ m ∧ (b.nodes.map (·.id)).Nodup := by
   have hwf := (run_inv hm me ops hv).1
   have hok : BucketOK m w k b := by simpa using hwf.find_leaf (hwf.get_leaf hb)
@@ -67,16 +67,16 @@ theorem capacity (hm : 1 ≤ m) (me : Bits) (ops : List Op) (hv : ValidHistory w
 /-- Only buckets on the path of the own identifier are ever split: every proper prefix of a bucket key (= every bucket
     that was split) is a prefix of the own identifier. -/
 theorem split_only_on_own_path (hm : 1 ≤ m) (me : Bits) (ops : List Op) (hv : ValidHistory w ops)
-    (k p : Bits) (hk : k ∈ (run m (RT.init me) ops).trie.keys) (hp : p <+: k) (hne : p ≠ k) : p <+: me := by
+    (k p : Bits) (hk : k ∈ (run (RT.init me m) ops).trie.keys) (hp : p <+: k) (hne : p ≠ k) : p <+: me := by
   have hwf := (run_inv hm me ops hv).1
   obtain ⟨b, hb⟩ := hwf.keys_leaf hk
   simpa using hwf.split_on_path hb hp hne
 
-/-- Lookups agree with membership: `RoutingTable.get(id)` of a stored node's id returns that very node, and an id for
-    which `get` answers is stored in the bucket `get_bucket` names. -/
+/-- Lookups agree with membership, direction 1: `RoutingTable.get(id)` of a stored node's id returns that very node
+    (the converse is `get_sound`). -/
 theorem get_finds_stored (hm : 1 ≤ m) (me : Bits) (ops : List Op) (hv : ValidHistory w ops)
-    (k : Bits) (b : Bucket) (hb : (run m (RT.init me) ops).trie.get k = some b) (n : Node) (hn : n ∈ b.nodes) :
-    (run m (RT.init me) ops).get n.id = some n := by
+    (k : Bits) (b : Bucket) (hb : (run (RT.init me m) ops).trie.get k = some b) (n : Node) (hn : n ∈ b.nodes) :
+    (run (RT.init me m) ops).get n.id = some n := by
   have ho := node_in_owner hm me ops hv k b hb n hn
   have hc := capacity hm me ops hv k b hb
   simp only [RT.get, ho.2.2.2, Bucket.get]
@@ -86,38 +86,53 @@ theorem get_finds_stored (hm : 1 ≤ m) (me : Bits) (ops : List Op) (hv : ValidH
     recursion needs at most `w + 1` rounds (the model's fuel is never exhausted). -/
 theorem add_terminates (hm : 1 ≤ m) (me : Bits) (ops : List Op) (hv : ValidHistory w ops) (n : Node)
     (hn : n.id.length = w) :
-    ((run m (RT.init me) ops).add m n).2 ≠ .outOfFuel ∧ ((run m (RT.init me) ops).add m n).2 ≠ .keyError := by
+    ((run (RT.init me m) ops).add n).2 ≠ .outOfFuel ∧ ((run (RT.init me m) ops).add n).2 ≠ .keyError := by
   have hinv := run_inv hm me ops hv
-  have hwf : WF m w (run m (RT.init me) ops).me [] (run m (RT.init me) ops).trie := by rw [hinv.2]; exact hinv.1
-  have := (add_inv hm _ n hn hwf).2.2
+  have hwf : WF m w (run (RT.init me m) ops).me [] (run (RT.init me m) ops).trie := by rw [hinv.2]; exact hinv.1
+  have := (add_inv hm _ n hn hwf).2.2.1
   constructor <;> intro h <;> rw [h] at this <;> exact this
 
-/-- Identifiers generated to refresh a bucket lie inside that bucket, for every outcome `r` of the random draw
-    (the code after the repair of `Bucket.generate_id`). -/
-theorem generated_id_in_bucket (b : Bucket) (r : Nat) (h : b.pfx.length ≤ w) :
-    b.owns (b.generateId w r) = true ∧ (b.generateId w r).length = w := by
-  constructor
-  · simp [Bucket.owns, Bucket.generateId]
-  · simp [Bucket.generateId, natToBits_length]; omega
+/-- Identifiers generated to refresh a bucket lie inside that bucket.  `generateId` follows the code step by step
+    (`format(r, "0<n>b")` with MINIMUM width, `int(prefix + suffix, 2)`, `format(.., "0<w/4>X")`, `unhexlify`, which fails
+    on an odd number of digits); `r` is the value the random source returned.  Hypothesis on the random source, explicit:
+    `r < 2^n` for `n = w - |prefix|` (what `random.getrandbits(n)` promises).  Then no exception, width `w`, inside. -/
+theorem generated_id_in_bucket (b : Bucket) (r : Nat) (hw : w % 8 = 0) (h : b.pfx.length ≤ w)
+    (hr : r < 2 ^ (w - b.pfx.length)) :
+    ∃ id, b.generateId w r = some id ∧ b.owns id = true ∧ id.length = w := by
+  refine ⟨_, generateId_eq b r hw h hr, ?_, ?_⟩
+  · simp [Bucket.owns]
+  · simp [natToBits_length]; omega
 
 /-- ... and for every bucket of every reachable table. -/
-theorem generated_id_in_reachable_bucket (hm : 1 ≤ m) (me : Bits) (ops : List Op) (hv : ValidHistory w ops)
-    (k : Bits) (b : Bucket) (hb : (run m (RT.init me) ops).trie.get k = some b) (r : Nat) :
-    k <+: b.generateId w r ∧ (b.generateId w r).length = w := by
+theorem generated_id_in_reachable_bucket (hm : 1 ≤ m) (me : Bits) (ops : List Op) (hv : ValidHistory w ops) (hw : w % 8 = 0)
+    (k : Bits) (b : Bucket) (hb : (run (RT.init me m) ops).trie.get k = some b) (r : Nat) (hr : r < 2 ^ (w - k.length)) :
+    ∃ id, b.generateId w r = some id ∧ k <+: id ∧ id.length = w := by
   have hwf := (run_inv hm me ops hv).1
   have hok : BucketOK m w k b := by simpa using hwf.find_leaf (hwf.get_leaf hb)
   have hlen : b.pfx.length ≤ w := by rw [hok.pfx]; exact hok.depth
-  have := generated_id_in_bucket (w := w) b r hlen
-  exact ⟨by rw [← hok.pfx]; exact (owns_iff b _).mp this.1, this.2⟩
+  obtain ⟨id, h1, h2, h3⟩ := generated_id_in_bucket (w := w) b r hw hlen (by rw [hok.pfx]; exact hr)
+  exact ⟨id, h1, by rw [← hok.pfx]; exact (owns_iff b _).mp h2, h3⟩
+
+/-- The hypothesis on the random source is needed: with the inclusive draw `r = 2^n` (what `randint(0, 2**n)` can return)
+    the same pipeline leaves the bucket, or makes `unhexlify` raise (width 8, witnesses). -/
+theorem generated_id_overflow_fails :
+    (∃ (b : Bucket), b.pfx.length ≤ 8 ∧ ∃ id, b.generateId 8 (2 ^ (8 - b.pfx.length)) = some id ∧ b.owns id = false) ∧
+    (∃ (b : Bucket), b.pfx.length ≤ 8 ∧ b.generateId 8 (2 ^ (8 - b.pfx.length)) = none) :=
+  ⟨⟨{ pfx := [false, true, true], nodes := [], cap := 8 }, by decide,
+      [true, true, true, false, false, false, false, false], by decide, by decide⟩,
+   ⟨{ pfx := [true, false, true], nodes := [], cap := 8 }, by decide, by decide⟩⟩
 
 /-- The defect that was repaired (DESIGN.md section 6 item 9), as a theorem about the old definition: the identifier
     the old `generate_id` produced for bucket "1" and draw 0 is outside that bucket. -/
 theorem generated_id_old_outside :
-    ∃ (b : Bucket) (r : Nat), b.pfx.length ≤ 4 ∧ b.owns (b.generateIdOld 4 r) = false :=
-  ⟨{ pfx := [true], nodes := [] }, 0, by decide, by decide⟩
+    ∃ (b : Bucket) (r : Nat) (id : Bits), b.pfx.length ≤ 8 ∧ b.generateIdOld 8 r = some id ∧ b.owns id = false :=
+  ⟨{ pfx := [true], nodes := [], cap := 8 }, 0, [false, false, false, false, false, false, false, false],
+    by decide, by decide, by decide⟩
 
-/-- The theorems above at the constants of the current source (regenerated on every run): capacity ≥ 1. -/
-theorem code_constants_admissible : 1 ≤ Gen.maxBucketSize ∧ Gen.idWidth % 8 = 0 ∧ 0 < Gen.idWidth := by decide
+/-- The theorems above at the constants of the current source (regenerated on every run): capacity ≥ 1, whole bytes;
+    and the pinned meaning of "failed multiple queries in a row" that the harness oracle uses too: two. -/
+theorem code_constants_admissible :
+    1 ≤ Gen.maxBucketSize ∧ Gen.idWidth % 8 = 0 ∧ 0 < Gen.idWidth ∧ Gen.badFailedThreshold = 2 := by decide
 
 /-! Non-vacuity: a concrete history over width 4 and capacity 2 with our own id 1010 that splits twice, evicts a BAD
     node, updates an address and removes bad nodes; the hypotheses of the theorems hold for it and the resulting table
@@ -134,10 +149,10 @@ theorem example_history_valid : ValidHistory 4 exOps := by
   simp [exOps] at hop
   rcases hop with h | h | h | h | h | h | h | h | h <;> subst h <;> simp [Op.valid]
 
-example : (run 2 (RT.init [true, false, true, false]) exOps).trie.keys
+example : (run (RT.init [true, false, true, false] 2) exOps).trie.keys
     = [[false], [true, false], [true, true]] := by decide
 
-example : ((run 2 (RT.init [true, false, true, false]) exOps).allNodes.map (·.tag)) = [4, 5, 0, 3] := by decide
+example : ((run (RT.init [true, false, true, false] 2) exOps).allNodes.map (·.tag)) = [4, 5, 0, 3] := by decide
 
 /-- A closest-nodes query returns exactly the `k` live nodes with the smallest XOR distance to the target, nearest
     first: for every reachable table, every target of width `w`, every `k` and every excluded identifier, the result
@@ -146,19 +161,19 @@ example : ((run 2 (RT.init [true, false, true, false]) exOps).allNodes.map (·.t
     unique and the secondary sort key `status` of the code never decides anything.) -/
 theorem closest_exact (hm : 1 ≤ m) (me : Bits) (ops : List Op) (hv : ValidHistory w ops)
     (target : Bits) (ht : target.length = w) (k : Nat) (excl : Option Bits) :
-    (run m (RT.init me) ops).closest target k excl
-      = ((liveAll (run m (RT.init me) ops) excl).mergeSort (RT.closer target)).take k := by
+    (run (RT.init me m) ops).closest target k excl
+      = ((liveAll (run (RT.init me m) ops) excl).mergeSort (RT.closer target)).take k := by
   have hinv := run_inv hm me ops hv
-  have hwf : WF m w (run m (RT.init me) ops).me [] (run m (RT.init me) ops).trie := by rw [hinv.2]; exact hinv.1
+  have hwf : WF m w (run (RT.init me m) ops).me [] (run (RT.init me m) ops).trie := by rw [hinv.2]; exact hinv.1
   exact closest_wf _ hwf target ht k excl
 
 /-- ... nearest first, strictly: the result is strictly increasing in XOR distance (hence duplicate-free). -/
 theorem closest_nearest_first (hm : 1 ≤ m) (me : Bits) (ops : List Op) (hv : ValidHistory w ops)
     (target : Bits) (ht : target.length = w) (k : Nat) (excl : Option Bits) :
-    ((run m (RT.init me) ops).closest target k excl).Pairwise (fun a b => dist a.id target < dist b.id target) := by
+    ((run (RT.init me m) ops).closest target k excl).Pairwise (fun a b => dist a.id target < dist b.id target) := by
   rw [closest_exact hm me ops hv target ht k excl]
   have hinv := run_inv hm me ops hv
-  have hwf : WF m w (run m (RT.init me) ops).me [] (run m (RT.init me) ops).trie := by rw [hinv.2]; exact hinv.1
+  have hwf : WF m w (run (RT.init me m) ops).me [] (run (RT.init me m) ops).trie := by rw [hinv.2]; exact hinv.1
   refine List.Pairwise.sublist (List.take_sublist _ _) ?_
   apply sort_strict
   · exact (nodup_of_nodup_map _ hwf.nodup_ids).sublist List.filter_sublist
@@ -171,9 +186,9 @@ theorem closest_nearest_first (hm : 1 ≤ m) (me : Bits) (ops : List Op) (hv : V
 /-- ... exactly `k` of them (or all live nodes when there are fewer), all of them live nodes of the table. -/
 theorem closest_count (hm : 1 ≤ m) (me : Bits) (ops : List Op) (hv : ValidHistory w ops)
     (target : Bits) (ht : target.length = w) (k : Nat) (excl : Option Bits) :
-    ((run m (RT.init me) ops).closest target k excl).length = min k (liveAll (run m (RT.init me) ops) excl).length ∧
-    ∀ x ∈ (run m (RT.init me) ops).closest target k excl,
-      x ∈ (run m (RT.init me) ops).allNodes ∧ x.bad = false ∧ excl ≠ some x.id := by
+    ((run (RT.init me m) ops).closest target k excl).length = min k (liveAll (run (RT.init me m) ops) excl).length ∧
+    ∀ x ∈ (run (RT.init me m) ops).closest target k excl,
+      x ∈ (run (RT.init me m) ops).allNodes ∧ x.bad = false ∧ excl ≠ some x.id := by
   rw [closest_exact hm me ops hv target ht k excl]
   refine ⟨by simp, ?_⟩
   intro x hx
@@ -186,14 +201,14 @@ theorem closest_count (hm : 1 ≤ m) (me : Bits) (ops : List Op) (hv : ValidHist
     returned node. -/
 theorem closest_minimal (hm : 1 ≤ m) (me : Bits) (ops : List Op) (hv : ValidHistory w ops)
     (target : Bits) (ht : target.length = w) (k : Nat) (excl : Option Bits)
-    (x : Node) (hx : x ∈ liveAll (run m (RT.init me) ops) excl)
-    (hnot : x ∉ (run m (RT.init me) ops).closest target k excl)
-    (y : Node) (hy : y ∈ (run m (RT.init me) ops).closest target k excl) :
+    (x : Node) (hx : x ∈ liveAll (run (RT.init me m) ops) excl)
+    (hnot : x ∉ (run (RT.init me m) ops).closest target k excl)
+    (y : Node) (hy : y ∈ (run (RT.init me m) ops).closest target k excl) :
     dist y.id target < dist x.id target := by
   rw [closest_exact hm me ops hv target ht k excl] at hnot hy
   have hinv := run_inv hm me ops hv
-  have hwf : WF m w (run m (RT.init me) ops).me [] (run m (RT.init me) ops).trie := by rw [hinv.2]; exact hinv.1
-  have hs : ((liveAll (run m (RT.init me) ops) excl).mergeSort (RT.closer target)).Pairwise
+  have hwf : WF m w (run (RT.init me m) ops).me [] (run (RT.init me m) ops).trie := by rw [hinv.2]; exact hinv.1
+  have hs : ((liveAll (run (RT.init me m) ops) excl).mergeSort (RT.closer target)).Pairwise
       (fun a b => dist a.id target < dist b.id target) := by
     apply sort_strict
     · exact (nodup_of_nodup_map _ hwf.nodup_ids).sublist List.filter_sublist
@@ -202,37 +217,87 @@ theorem closest_minimal (hm : 1 ≤ m) (me : Bits) (ops : List Op) (hv : ValidHi
       have hlc := (hwf.own_under (List.mem_filter.mp hc).1).2
       have hid := dist_inj a.id c.id target (by omega) (by omega) hd
       exact inj_of_nodup_map (·.id) hwf.nodup_ids a (List.mem_filter.mp ha).1 c (List.mem_filter.mp hc).1 hid
-  rw [← List.take_append_drop k ((liveAll (run m (RT.init me) ops) excl).mergeSort (RT.closer target))] at hs
-  have hxs : x ∈ (liveAll (run m (RT.init me) ops) excl).mergeSort (RT.closer target) := List.mem_mergeSort.mpr hx
-  rw [← List.take_append_drop k ((liveAll (run m (RT.init me) ops) excl).mergeSort (RT.closer target))] at hxs
+  rw [← List.take_append_drop k ((liveAll (run (RT.init me m) ops) excl).mergeSort (RT.closer target))] at hs
+  have hxs : x ∈ (liveAll (run (RT.init me m) ops) excl).mergeSort (RT.closer target) := List.mem_mergeSort.mpr hx
+  rw [← List.take_append_drop k ((liveAll (run (RT.init me m) ops) excl).mergeSort (RT.closer target))] at hxs
   rcases List.mem_append.mp hxs with h | h
   · exact absurd h hnot
   · exact (List.pairwise_append.mp hs).2.2 y hy x h
 
 /-- non-vacuity of the closest theorems: on the example table (4 live nodes) a query with k = 3 returns 3 nodes -/
-example : (liveAll (run 2 (RT.init [true, false, true, false]) exOps) none).map (·.tag) = [4, 5, 0, 3] := by decide
-example : ((run 2 (RT.init [true, false, true, false]) exOps).closest [true, false, false, true] 3 none).length = 3 := by
+example : (liveAll (run (RT.init [true, false, true, false] 2) exOps) none).map (·.tag) = [4, 5, 0, 3] := by decide
+example : ((run (RT.init [true, false, true, false] 2) exOps).closest [true, false, false, true] 3 none).length = 3 := by
   rw [(closest_count (m := 2) (w := 4) (by decide) _ exOps example_history_valid [true, false, false, true] rfl 3 none).1]
   decide
 
 /-- What "live" means: a node is BAD exactly when it failed `badFailedThreshold` (2 in the code) or more queries in a
-    row — whatever its last contact was (`recent`).  Re-proved against the regenerated status codes and threshold. -/
+    row — whatever its last contact was (`recent`).  `Node.status` evaluates the decision list `Gen.statusRules` that the
+    translator reads from the source IN SOURCE ORDER, so this is re-proved against the order of the tests, the status
+    codes and the threshold of the current code (a version that lets recent contact outrank the failure count makes
+    this theorem false). -/
 theorem bad_iff_failed (n : Node) : n.bad = true ↔ Gen.badFailedThreshold ≤ n.failed := by
   unfold Node.bad Node.status
   by_cases h : n.failed ≥ Gen.badFailedThreshold
-  · simp [h]
-  · have h' : ¬ Gen.badFailedThreshold ≤ n.failed := h
-    cases hr : n.recent <;> simp [h, Gen.statusGood, Gen.statusBad, Gen.statusUnknown]
+  · simp [h, Node.statusFrom, Gen.statusRules, Gen.statusDefault, Gen.statusBad]
+  · cases hr : n.recent <;>
+      simp [h, hr, Node.statusFrom, Gen.statusRules, Gen.statusDefault, Gen.statusBad]
 
-/-- ... hence the nodes a closest-nodes query may return are exactly those below the failure threshold (and not
-    excluded), and every returned node is below it — even one that answered a moment ago before failing. -/
+/-- ... hence every node a closest-nodes query returns is below the failure threshold — even one that answered a moment
+    ago before failing.  (One direction only; which unfailed nodes are returned is `closest_exact`.) -/
 theorem closest_only_unfailed (hm : 1 ≤ m) (me : Bits) (ops : List Op) (hv : ValidHistory w ops)
     (target : Bits) (ht : target.length = w) (k : Nat) (excl : Option Bits) :
-    ∀ x ∈ (run m (RT.init me) ops).closest target k excl, x.failed < Gen.badFailedThreshold := by
+    ∀ x ∈ (run (RT.init me m) ops).closest target k excl, x.failed < Gen.badFailedThreshold := by
   intro x hx
   have hb := ((closest_count hm me ops hv target ht k excl).2 x hx).2.1
   have : ¬ Gen.badFailedThreshold ≤ x.failed := fun h => by simp [(bad_iff_failed x).mpr h] at hb
   omega
+
+/-- Lookups agree with membership, direction 2: whatever `RoutingTable.get(id)` returns is a stored node with that id. -/
+theorem get_sound (hm : 1 ≤ m) (me : Bits) (ops : List Op) (hv : ValidHistory w ops) (id : Bits) (hid : id.length = w)
+    (n : Node) (hg : (run (RT.init me m) ops).get id = some n) :
+    n.id = id ∧ ∃ k b, (run (RT.init me m) ops).trie.get k = some b ∧ n ∈ b.nodes := by
+  have hwf := (run_inv hm me ops hv).1
+  obtain ⟨p, b, hgb, _, hf⟩ := hwf.getBucket (s := id) (by simpa using hid)
+  have hgb' : (run (RT.init me m) ops).getBucket id = some (p, b) := hgb
+  simp only [RT.get, hgb', Bucket.get] at hg
+  exact ⟨by simpa using List.find?_some hg, p, b, leaf_get hf, List.mem_of_find?_eq_some hg⟩
+
+/-- What `add` returns: a returned node carries the added identifier and is stored in the table afterwards. -/
+theorem add_stored_is_member (hm : 1 ≤ m) (me : Bits) (ops : List Op) (hv : ValidHistory w ops) (n : Node)
+    (hn : n.id.length = w) (x : Node) (hx : ((run (RT.init me m) ops).add n).2 = .stored x) :
+    x.id = n.id ∧ ∃ k b, ((run (RT.init me m) ops).add n).1.trie.get k = some b ∧ x ∈ b.nodes := by
+  have hinv := run_inv hm me ops hv
+  have hwf : WF m w (run (RT.init me m) ops).me [] (run (RT.init me m) ops).trie := by rw [hinv.2]; exact hinv.1
+  exact (add_inv hm _ n hn hwf).2.2.2 x hx
+
+/-- `add` is not vacuous: a new identifier whose owning bucket has room IS stored, and `add` returns that very node. -/
+theorem add_stores_if_room (hm : 1 ≤ m) (me : Bits) (ops : List Op) (hv : ValidHistory w ops) (n : Node)
+    (hn : n.id.length = w) (p : Bits) (b : Bucket) (hg : (run (RT.init me m) ops).getBucket n.id = some (p, b))
+    (hroom : b.nodes.length < m) (hfresh : ∀ x ∈ b.nodes, x.id ≠ n.id) :
+    ((run (RT.init me m) ops).add n).2 = .stored n := by
+  have hwf := (run_inv hm me ops hv).1
+  obtain ⟨p', b', hgb, hp, hf⟩ := hwf.getBucket (s := n.id) (by simpa using hn)
+  have hgb' : (run (RT.init me m) ops).getBucket n.id = some (p', b') := hgb
+  rw [hg] at hgb'
+  obtain ⟨rfl, rfl⟩ := Prod.mk.inj (Option.some.inj hgb')
+  have hb : BucketOK m w p b := by simpa using hwf.find_leaf hf
+  have hown : b.owns n.id = true := (owns_iff b n.id).mpr (by rw [hb.pfx]; exact hp)
+  have hadd : b.add n = ({ b with nodes := b.nodes ++ [n] }, true) := by
+    have := add_fresh (m := m) hown hfresh hroom
+    exact (congrArg (fun c => b.addM c n) hb.capEq).trans this
+  have hnd : (((b.nodes ++ [n]).map (·.id))).Nodup := by
+    have := (hb.add n hn).nodup
+    rw [show b.addM m n = b.add n by simp [Bucket.add, hb.capEq], hadd] at this
+    exact this
+  have hfind : (b.nodes ++ [n]).find? (fun x => x.id == n.id) = some n := find_of_nodup_ids hnd (by simp)
+  simp only [RT.add, RT.addFuel, hg, hadd, if_true, Bucket.get, hfind]
+
+/-- `remove_bad_nodes` removes EXACTLY the BAD nodes and keeps every other node (order preserved), on any table. -/
+theorem remove_bad_exact (rt : RT) :
+    rt.removeBad.1.allNodes = rt.allNodes.filter (fun x => !x.bad) ∧ rt.removeBad.2 = rt.allNodes.filter (fun x => x.bad) := by
+  constructor
+  · simp only [RT.removeBad, RT.allNodes, RT.buckets, Trie.values_mapVals, List.flatMap_map, List.filter_flatMap]
+  · simp only [RT.removeBad, RT.allNodes, RT.buckets, List.filter_flatMap]
 
 /-- `remove_bad_nodes` leaves no node at or above the failure threshold in the table and returns only such nodes. -/
 theorem remove_bad_removes_failed (rt : RT) :
@@ -249,5 +314,31 @@ theorem remove_bad_removes_failed (rt : RT) :
     simp only [RT.removeBad, List.mem_flatMap] at hx
     obtain ⟨b, _, hx⟩ := hx
     exact (bad_iff_failed x).mp (List.mem_filter.mp hx).2
+
+/-! ## every theorem instantiated on the example history / concrete values (hypotheses discharged, so none is vacuous) -/
+section Examples
+abbrev exMe : Bits := [true, false, true, false]
+example := partition_prefix_free (m := 2) (w := 4) (by decide) exMe exOps example_history_valid
+example := partition_complete (m := 2) (w := 4) (by decide) exMe exOps example_history_valid [false, true, true, true] rfl
+example := node_in_owner (m := 2) (w := 4) (by decide) exMe exOps example_history_valid
+example := get_finds_stored (m := 2) (w := 4) (by decide) exMe exOps example_history_valid
+example := get_sound (m := 2) (w := 4) (by decide) exMe exOps example_history_valid [true, false, false, false] rfl
+example := capacity (m := 2) (w := 4) (by decide) exMe exOps example_history_valid
+example := split_only_on_own_path (m := 2) (w := 4) (by decide) exMe exOps example_history_valid
+example := add_terminates (m := 2) (w := 4) (by decide) exMe exOps example_history_valid ⟨[true, true, true, true], 0, true, 1, 1, 9⟩ rfl
+example := add_stored_is_member (m := 2) (w := 4) (by decide) exMe exOps example_history_valid ⟨[true, true, true, true], 0, true, 1, 1, 9⟩ rfl
+example : ((run (RT.init exMe 2) exOps).add ⟨[true, true, true, true], 0, true, 1, 1, 9⟩).2
+    = .stored ⟨[true, true, true, true], 0, true, 1, 1, 9⟩ := by decide
+example := closest_exact (m := 2) (w := 4) (by decide) exMe exOps example_history_valid [true, false, false, true] rfl 3 none
+example := closest_nearest_first (m := 2) (w := 4) (by decide) exMe exOps example_history_valid [true, false, false, true] rfl 3 none
+example := closest_minimal (m := 2) (w := 4) (by decide) exMe exOps example_history_valid [true, false, false, true] rfl 3 none
+example := closest_only_unfailed (m := 2) (w := 4) (by decide) exMe exOps example_history_valid [true, false, false, true] rfl 3 none
+example := generated_id_in_bucket (w := 8) { pfx := [true, false, true], nodes := [], cap := 8 } 21 (by decide) (by decide) (by decide)
+example : Bucket.generateId 8 { pfx := [true, false, true], nodes := [], cap := 8 } 21
+    = some [true, false, true, true, false, true, false, true] := by decide
+example : (⟨[], 2, true, 0, 0, 0⟩ : Node).bad = true ∧ (⟨[], 1, false, 0, 0, 0⟩ : Node).bad = false := by decide
+example := remove_bad_exact (run (RT.init exMe 2) (exOps.take 7))
+example : ((run (RT.init exMe 2) (exOps.take 7)).removeBad.2.map (·.tag)) = [1] := by decide
+end Examples
 
 end Ipv8.C14
